@@ -135,7 +135,12 @@ class Program:
 
     def prql(self, header=None):
         lines = (["prql target:%s" % header] if header else []) + ["from t"] + [s.prql for s in self.steps]
-        return "\n".join(lines)
+        txt = "\n".join(lines)
+        rn = self.meta.get("rename")
+        if rn:
+            import re as _re
+            txt = _re.sub(r"(?<![A-Za-z0-9_`])(%s)(?![A-Za-z0-9_`])" % "|".join(sorted(rn, key=len, reverse=True)), lambda m: rn[m.group(1)], txt)
+        return txt
 
     def coq(self):
         return "[" + "; ".join(s.coq for s in self.steps) + "]"
@@ -229,6 +234,8 @@ class Gen:
             if force:
                 force.pop(0)
             st["steps"].append(step)
+            if st.get("stop"):
+                break
         if final_select:
             seen, its, cis, fc = set(), [], [], []
             for q, c in st["cols"]:
@@ -494,8 +501,8 @@ class Gen:
         return Step("distinct", "group {%s} (take 1)" % ", ".join(c for _, c in keep), "TDistinct")
 
     def t_append(self, st):
-        if st["joined"] or st["cols"] != [(None, c) for c in TABLES["t"]]:
-            return None
+        if st["joined"] or st["cols"] != [(None, c) for c in TABLES["t"]] or any(x.kind not in ("sort", "filter", "take") for x in st["steps"]):
+            return None          # both operands must still be the bare table (an explicit select fixes the arity)
         st["order"] = None
         st["uniq"] = None
         return Step("append", "append t", "TAppend T_TABLE")
@@ -529,9 +536,10 @@ def coq_rel(t, rows, qual, cols=None):
 
 def sql_setup(inst):
     out = []
+    rn = inst.get("__rename__", {})
     for t in TABLES:
-        cs = inst_cols(inst, t)
-        out.append("create table %s(%s)" % (t, ", ".join(cs)))
+        cs = [rn.get(c, c) for c in inst_cols(inst, t)]
+        out.append("create table %s(%s)" % (t, ", ".join('"%s"' % c for c in cs)))
         for row in inst[t]:
             out.append("insert into %s values (%s)" % (t, ", ".join("NULL" if v is None else str(v) for v in row)))
     return out
